@@ -11,7 +11,7 @@
 (* Lines that the specification cannot explain are collected in `bad'        *)
 (* (validation continues from the observed state).                           *)
 EXTENDS VecAbstract, TraceLib
-VARIABLES l, ty, cur, bad
+VARIABLES l, cur, bad
 
 None == [none |-> TRUE]
 Kinds == {"Default", "Construct", "View", "Copy", "Move", "Swap", "Assign", "SelfAssign", "Resize", "GrowBy", "Reserve",
@@ -32,22 +32,21 @@ Explains(r) ==
   CASE r.e = "Config" -> r.ty \in {"VI", "NF", "A1"}
     [] r.e = "Init" -> InitOK(r) /\ SelfConsistent(r.post)
     [] r.e = "Pre" -> StateOK(StateOfObs(r.post)) /\ SelfConsistent(r.post)
-    [] r.e \in {"Edge", "Step"} -> /\ OpOK(r.op) /\ cur # None
-                                   /\ StepOK(ty, cur, r.op, r.res, r.err, r.post) /\ SelfConsistent(r.post)
+    [] r.e \in {"Edge", "Step"} -> /\ OpOK(r.op) /\ cur # None /\ r.ty \in {"VI", "NF", "A1"}
+                                   /\ StepOK(r.ty, cur, r.op, r.res, r.err, r.post) /\ SelfConsistent(r.post)
     [] OTHER -> FALSE
 
 \* no known findings for the one-dimensional classes: everything unexplained is new
 Classify(r) == "new"
 
-Init == l = 1 /\ ty = "" /\ cur = None /\ bad = << >>
+Init == l = 1 /\ cur = None /\ bad = << >>
 Next == /\ l <= Len(TraceLog)
         /\ LET r == TraceLog[l] IN
-           /\ ty' = IF r.e = "Config" THEN r.ty ELSE ty
            /\ cur' = IF r.e \in {"Init", "Pre", "Step"} THEN r.post ELSE IF r.e = "Config" THEN None ELSE cur
            /\ bad' = IF Explains(r) THEN bad
                      ELSE IF Len(bad) < 200 THEN Append(bad, << l, Classify(r) >>) ELSE bad
         /\ l' = l + 1
-Spec == Init /\ [][Next]_<< l, ty, cur, bad >>
+Spec == Init /\ [][Next]_<< l, cur, bad >>
 
 Done == l > Len(TraceLog) => (bad = << >> \/ PrintT(<< "UNEXPLAINED", bad >>))
 Consumed == IF TLCGet("stats").diameter - 1 = Len(TraceLog) THEN TRUE
